@@ -35,6 +35,7 @@ type Obligation struct {
 	Tags   []string `json:"tags,omitempty"`
 	n      int
 	Cover  bool `json:"cover,omitempty"` // must be SAT (vacuity guard)
+	Known  bool `json:"known,omitempty"` // the known-finding case itself: expected NOT to be provable
 	Assume bool `json:"-"`               // do not add as a fact afterwards
 }
 
